@@ -65,19 +65,17 @@ def externalPass (g : Game α) (first : Bool) (p : RegretParams α) (draw : Draw
   let (xs, r) := advanceAll p it (if first then it - 1 else it) (s.get first) 0
   (s.set first xs, r, d.log)
 
-def externalLoop (g : Game α) (p : RegretParams α) (draw : DrawFn α) (thr : Option (Ext α)) :
-    Nat → Nat → SolveSt α → Ext α → Ext α → List (DrawRec α) → SolveOut α
-  | 0, it, s, r1, r2, log => ⟨r1, r2, s.avg true, s.avg false, it - 1, log⟩
-  | n + 1, it, s, _, _, log =>
-    let (s, r1, log) := externalPass g true p draw it s log
-    let (s, r2, log) := externalPass g false p draw it s log
-    if belowThreshold r1 r2 thr then ⟨.fin r1, .fin r2, s.avg true, s.avg false, it, log⟩
-    else externalLoop g p draw thr n (it + 1) s (.fin r1) (.fin r2) log
+/-- one iteration: player one's pass, then player two's -/
+def externalIter (g : Game α) (p : RegretParams α) (draw : DrawFn α) : IterFn α := fun it s log =>
+  match externalPass g true p draw it s log with
+  | (s, r1, log) =>
+    match externalPass g false p draw it s log with
+    | (s, r2, log) => (s, r1, r2, log)
 
 /-- `solve_external_single` -/
 def solveExternalSingle (g : Game α) (p : RegretParams α) (draw : DrawFn α)
     (maxIter : Nat) (thr : Option (Ext α)) : SolveOut α :=
-  externalLoop g p draw thr maxIter 1 (SolveSt.init g) .posInf .posInf []
+  solveWith g (externalIter g p draw) maxIter thr
 
 end
 end Cfr
